@@ -9,6 +9,7 @@ import (
 	"os"
 
 	"github.com/ipld/go-storethehash/store/types"
+	"github.com/ipld/go-storethehash/store/vhook"
 )
 
 func upgradeIndex(ctx context.Context, name, headerPath string, maxFileSize uint32) error {
@@ -33,20 +34,24 @@ func upgradeIndex(ctx context.Context, name, headerPath string, maxFileSize uint
 		return fmt.Errorf("cannot convert unknown header version: %d", version)
 	}
 
+	vhook.At("index.upgrade.start")
 	fileNum, err := chunkOldIndex(ctx, inFile, name, int64(maxFileSize))
 	if err != nil {
 		return err
 	}
 	inFile.Close()
 
+	vhook.At("index.upgrade.before-header")
 	if err = writeHeader(headerPath, newHeader(bucketBits, maxFileSize)); err != nil {
 		return err
 	}
 
+	vhook.At("index.upgrade.before-remove-old")
 	if err = os.Remove(name); err != nil {
 		return err
 	}
 
+	vhook.At("index.upgrade.done")
 	log.Infow("Replaced old index with multiple files", "replaced", name, "files", fileNum+1)
 	log.Infof("Upgraded index from version 2 to %d", IndexVersion)
 	return nil
@@ -73,6 +78,7 @@ func readOldHeader(file *os.File) (byte, byte, types.Position, error) {
 func chunkOldIndex(ctx context.Context, file *os.File, name string, fileSizeLimit int64) (uint32, error) {
 	var fileNum uint32
 	outName := indexFileName(name, fileNum)
+	vhook.At("index.upgrade.chunk.before-create")
 	outFile, err := createFileAppend(outName)
 	if err != nil {
 		return 0, err
@@ -108,6 +114,7 @@ func chunkOldIndex(ctx context.Context, file *os.File, name string, fileSizeLimi
 		}
 		written += sizePrefixSize + int64(size)
 		if written >= fileSizeLimit {
+			vhook.At("index.upgrade.chunk.before-flush")
 			if err = writer.Flush(); err != nil {
 				return 0, err
 			}
@@ -117,6 +124,7 @@ func chunkOldIndex(ctx context.Context, file *os.File, name string, fileSizeLimi
 			}
 			fileNum++
 			outName = indexFileName(name, fileNum)
+			vhook.At("index.upgrade.chunk.before-create-next")
 			outFile, err = createFileAppend(outName)
 			if err != nil {
 				return 0, err
@@ -127,6 +135,7 @@ func chunkOldIndex(ctx context.Context, file *os.File, name string, fileSizeLimi
 		}
 	}
 	if written != 0 {
+		vhook.At("index.upgrade.chunk.before-flush-last")
 		if err = writer.Flush(); err != nil {
 			return 0, err
 		}
